@@ -601,7 +601,7 @@ func genBlob(t *rapid.T, p *pools, cookies [2]uint32, allowEmpty bool, m *machin
 }
 
 func TestPropHistories(t *testing.T) {
-	vlib.Check(t, 400, 10000, func(t *rapid.T) {
+	vlib.Check(t, 300, 6000, func(t *rapid.T) {
 		kind := storage.NeedleMapInMemory
 		if rapid.IntRange(0, 2).Draw(t, "leveldb") == 0 {
 			kind = storage.NeedleMapLevelDb
